@@ -51,3 +51,6 @@ Definition obs_freeze_310 (first codelen : Z) (m : list (Z * Z)) : list Z :=
   | Err e => [1; err_code e]
   | Ok ls => obs_bytes tab ++ obs_pairs (fls_colines ls None) ++ obs_pairs (fls_colines ls None)
   end.
+
+From Xdis Require Import Model.Listing.
+Definition obs_exc_text (tab : list Z) : list Z := 0 :: exc_table_text (parse_exception_table tab).
